@@ -16,9 +16,10 @@ contract("C06.value_handler",
          file="hed/models/column_mapper.py", func="ColumnMapper._value_handler",
          params={"value_str": "Str", "x": "Str"}, returns="Str", enc="native",
          ensures={
-             "C06.value.na_passes_through": "implies(x == 'n/a', result == 'n/a')",
-             "C06.value.template_filled": "implies(x != 'n/a', result == replace_all(value_str, '#', x))",
-             "C06.value.no_placeholder_left": "implies(x != 'n/a' and '#' not in x, '#' not in result)",
+             # "skipping cells that are n/a or empty"
+             "C06.value.na_or_empty_cell_is_absent": "implies(x == 'n/a' or x == '', result == 'n/a')",
+             "C06.value.template_filled": "implies(x != 'n/a' and x != '', result == replace_all(value_str, '#', x))",
+             "C06.value.no_placeholder_left": "implies(x != 'n/a' and x != '' and '#' not in x, '#' not in result)",
              "C06.value.cell_text_inserted": "implies(x != 'n/a' and '#' in value_str and len(x) > 0, x in result)",
          },
          bounded={"value_str": 'choice:["Label/#", "(Label/#, Item/#)", "Red", ""]', "x": 'choice:["3", "n/a", "a#b", ""]'},
